@@ -278,7 +278,7 @@ void cv_icosa_band_cells(CellVec *c, int res, int nT) {
         if (greatCircleDistanceRads(&g[i], &g[j]) > 1.2) continue;
         double nx = v[i][1] * v[j][2] - v[i][2] * v[j][1], ny = v[i][2] * v[j][0] - v[i][0] * v[j][2], nz = v[i][0] * v[j][1] - v[i][1] * v[j][0], nn = sqrt(nx * nx + ny * ny + nz * nz); nx /= nn; ny /= nn; nz /= nn;
         for (int s = 0; s < nT; s++) {
-            double t = s == 0 ? 0.5 : s == 1 ? 0.5 + 0.03 * (vt_rand01() - 0.5) : s == 2 ? 0.02 + 0.1 * vt_rand01() : vt_rand01();
+            double t = s == 0 ? 0.5 : s == 1 ? 0.5 + 0.03 * (vt_rand01() - 0.5) : s == 2 ? 0.01 + 0.14 * vt_rand01() : s == 3 ? 0.99 - 0.14 * vt_rand01() : vt_rand01();   /* middle, near either end (inside the pentagons' base cells), anywhere */
             double m[3]; for (int q = 0; q < 3; q++) m[q] = (1 - t) * v[i][q] + t * v[j][q];
             for (int o = 0; o < 13; o++) for (int sg = -1; sg <= 1; sg += 2) {
                 double w[3] = {m[0] + sg * OFF[o] * nx, m[1] + sg * OFF[o] * ny, m[2] + sg * OFF[o] * nz}; double wn = sqrt(w[0] * w[0] + w[1] * w[1] + w[2] * w[2]);
